@@ -378,6 +378,12 @@ fn kind(out: &mut Vec<GSpec>) {
                         }
                     }
                 }
+                // the skip rules themselves are entry points too (C04: kind-dependent trailing skip)
+                for r in rules.iter_mut() {
+                    if r.name == "WHITESPACE" || r.name == "COMMENT" {
+                        r.entry = true;
+                    }
+                }
                 if !valid(&rules) {
                     eprintln!("gramgen: kind/{} body {} invalid, dropped", cfg.name, b);
                     continue;
@@ -400,8 +406,8 @@ fn kind(out: &mut Vec<GSpec>) {
 
 /// F-stack: stack operations inside choices, optionals, repetitions and predicates.
 fn stack(out: &mut Vec<GSpec>) {
-    let ops_q = ["PUSH(\"a\")", "POP", "DROP", "PUSH(\"a\") ~ POP"];
-    let ops_t = ["PUSH(\"b\" | \"\")", "POP_ALL", "PUSH(\"b\") ~ DROP", "PUSH(\"a\") ~ PUSH(\"b\")", "PEEK ~ POP"];
+    let ops_q = ["PUSH(\"a\")", "POP", "DROP", "PUSH(\"a\") ~ POP", "DROP ~ PUSH(\"b\")"];
+    let ops_t = ["PUSH(\"b\" | \"\")", "POP_ALL", "PUSH(\"b\") ~ DROP", "PUSH(\"a\") ~ PUSH(\"b\")", "PEEK ~ POP", "POP ~ PUSH(\"a\")", "POP_ALL ~ PUSH(\"b\")"];
     let wrap = |k: usize, body: &str| -> String {
         match k {
             0 => format!("(({}) | \"a\")", body),
@@ -953,6 +959,8 @@ fn sub(out: &mut Vec<GSpec>) {
         "PUSH(\"a\"+) ~ \"b\" ~ PEEK",
         "(!(\"ab\" | \"ba\") ~ ANY)*",
         "(!\"b\" ~ ANY)* ~ \"b\"",
+        "(!\"ab\" ~ ANY)* ~ ANY?",
+        "ASCII_ALPHA+ ~ \" \"?",
         "(\"a\" ~ \"b\"?)+ ~ EOI?",
         "\"a\" ~ (!EOI ~ ANY)*",
         "(SOI | \"a\") ~ \"b\"",
@@ -1137,6 +1145,71 @@ pub fn cycle_grammars() -> Vec<(String, Vec<RuleSpec>, bool)> {
     out
 }
 
+/// Counted repetitions around stack operations, with and without pest's optimizer (the only way the
+/// derive emits RepMinMax / RepMin / RepExact nodes): explored by the stack lenses from pre-populated stacks.
+fn optstack(out: &mut Vec<GSpec>) {
+    let bodies = [
+        "(PUSH(\"a\") ~ \"b\"){1,3} ~ PEEK_ALL",
+        "(PUSH(\"a\") ~ \"b\"){,2} ~ POP?",
+        "(POP ~ \"a\"){,2} ~ PEEK_ALL",
+        "(POP ~ \"a\"){1,2} ~ \"b\"?",
+        "(DROP ~ \"a\"){1,3}",
+        "(DROP ~ PUSH(\"b\") ~ \"a\"){,2} ~ PEEK",
+        "(PUSH(\"a\") ~ \"a\"){2} ~ POP ~ POP",
+        "(PUSH(\"b\")? ~ \"a\"){2,3} ~ PEEK_ALL",
+        "(&(POP ~ \"a\") ~ \"b\"){1,2}",
+        "((PUSH(\"a\") ~ \"b\"){1,2} | \"a\"){,2} ~ PEEK_ALL",
+        "(\"a\" ~ POP_ALL){,2}",
+        "(PEEK ~ \"b\"){2,}",
+        "\"a\"{1,3} ~ \"b\"{,2}",
+        "(\"a\" | \"ab\"){2,3} ~ \"b\"?",
+    ];
+    let mut rules = vec![];
+    for (k, b) in bodies.iter().enumerate() {
+        rules.push(RuleSpec::new(&format!("e{}", k), 'N', b));
+        rules.push(RuleSpec::new(&format!("a{}", k), 'A', b));
+        rules.push(RuleSpec::new(&format!("c{}", k), 'C', b));
+    }
+    assert!(valid(&rules));
+    for (vi, opts) in [vec!["no_warnings = false"], vec!["pest_optimizer = false"], vec!["pest_optimizer = false", "box_only_if_needed"]].iter().enumerate() {
+        out.push(GSpec {
+            id: format!("optstack_{}", vi),
+            family: "optstack".into(),
+            quick: vi < 2,
+            rules: rules.clone(),
+            alphabet: "ab".into(),
+            max_len: 6,
+            max_len_thorough: 8,
+            init_alphabet: strs(&["a", "b"]),
+            init_depth: 2,
+            options: opts.iter().map(|s| s.to_string()).collect(),
+            base_id: if vi == 0 { String::new() } else { "optstack_0".into() },
+            all_forms: vi == 1,
+            ..Default::default()
+        });
+    }
+    // the same with implicit skipping: only the default configuration is comparable with pest here
+    let mut rules2 = vec![RuleSpec::helper("WHITESPACE", 'S', "\" \"")];
+    for (k, b) in ["\"a\"{1,3}", "(\"a\" ~ \"b\"){,2} ~ \"a\"?", "(\"a\" | \"b\"){2,3}", "(PUSH(\"a\") ~ \"b\"){1,2} ~ POP", "\"a\"{2} ~ \"b\"{1,}"].iter().enumerate() {
+        rules2.push(RuleSpec::new(&format!("e{}", k), 'N', b));
+        rules2.push(RuleSpec::new(&format!("a{}", k), 'A', b));
+        rules2.push(RuleSpec::new(&format!("x{}", k), 'X', b));
+    }
+    assert!(valid(&rules2));
+    out.push(GSpec {
+        id: "optstack_ws".into(),
+        family: "optstack".into(),
+        quick: true,
+        rules: rules2,
+        alphabet: "ab ".into(),
+        max_len: 6,
+        max_len_thorough: 7,
+        init_alphabet: strs(&["a"]),
+        init_depth: 1,
+        ..Default::default()
+    });
+}
+
 fn cycles(out: &mut Vec<GSpec>) {
     for (name, rules, quick) in cycle_grammars() {
         assert!(valid(&rules), "{}", name);
@@ -1197,6 +1270,9 @@ pub fn all(out: &mut Vec<GSpec>) {
     if want("options") {
         options(out);
         cycles(out);
+    }
+    if want("optstack") {
+        optstack(out);
     }
     // the subject's `grammar-extras` configuration (pest keeps `e+` as one node): a slice of the corpus again
     let mut ge: Vec<GSpec> = vec![];
